@@ -10,7 +10,13 @@ From Sdfx Require Import Sdf.Build.
 From Sdfx Require Import Sdf.BuildR.
 From Sdfx Require Import Sdf.Bezier.
 From Sdfx Require Import Sdf.BezierR.
+From Sdfx Require Import Sdf.BuildWhole.
+From Sdfx Require Import Sdf.BuildWholeR.
+From Sdfx Require Import Sdf.BezierWhole.
+From Sdfx Require Import Generated.ProfSkel.
+From Sdfx Require Import Sdf.ProfEq.
 From Sdfx Require Sdf.C17Corr.   (* the correspondence evaluated by the cases files: built with the obligations *)
+From Sdfx Require Sdf.C17Hist.   (* the history correspondence (several renders of one builder value), same role *)
 Import ListNotations.
 Open Scope R_scope.
 
@@ -239,6 +245,178 @@ Theorem C17_closed_curve_closes : forall (l l' : list (BV ROps)), closure true l
 Proof. exact closed_curve_closes. Qed.
 Print Assumptions C17_closed_curve_closes.
 
+(* ---------------------------------------------------------------- the WHOLE builders *)
+(* The theorems above are per vertex / per span.  The ones below are about the complete
+   functions, for every input list; they contain no loop, no fuel and no index into an
+   intermediate list.  Those quantified over an arbitrary number system `O : Ops` hold for the
+   float64 instance that is replayed against the Go code as well as for the reals. *)
+
+(* createArcs = arcs_spec: every vertex once, in order; every arc vertex is preceded by its
+   facets-1 arc points computed from the ORIGINAL previous vertex (the last vertex for vertex 0
+   of a closed polygon; vertex 0 of an open polygon just loses its mark) and becomes normal *)
+Theorem C17_create_arcs_is_arcs_spec : forall (O : Ops) closed (l : list (PV O)),
+  create_arcs closed l = arcs_spec (wrap_prev closed l) l.
+Proof. exact @create_arcs_spec. Qed.
+Print Assumptions C17_create_arcs_is_arcs_spec.
+
+(* the `for done == false` loop of createArcs exits through done == true: the result is the
+   output of a pass that changed nothing, and more fuel gives the same list *)
+Theorem C17_create_arcs_terminates : forall (O : Ops) closed (l : list (PV O)),
+  (exists lk, snd (pass (arc_vertex closed) (length lk) 0 lk false) = false /\
+              create_arcs closed l = fst (pass (arc_vertex closed) (length lk) 0 lk false)) /\
+  forall k, until_done (S (length l) + k) (arc_vertex closed) l = create_arcs closed l.
+Proof. exact @create_arcs_terminates. Qed.
+Print Assumptions C17_create_arcs_terminates.
+
+(* smoothVertices terminates (any number system) with a fixed point of smoothVertex *)
+Theorem C17_smooth_vertices_fixed_point : forall (O : Ops) closed (l : list (PV O)),
+  (forall i, smooth_vertex closed (smooth_vertices closed l) i = (smooth_vertices closed l, false)) /\
+  forall k, until_done (S (length l) + k) (smooth_vertex closed) l = smooth_vertices closed l.
+Proof. exact @smooth_vertices_fixed_point. Qed.
+Print Assumptions C17_smooth_vertices_fixed_point.
+
+(* ... and its output is the input with some Smooth vertices replaced, in place, by the fillet
+   points of a pair of neighbour positions for which the fillet fits (smrel); nothing else moves *)
+Theorem C17_smooth_vertices_structure : forall (O : Ops) closed (l : list (PV O)),
+  smrel l (smooth_vertices closed l).
+Proof. exact @smooth_vertices_structure. Qed.
+Print Assumptions C17_smooth_vertices_structure.
+
+(* over the reals, for every list of proper corners (smooth_input_ok): one block per input vertex,
+   in order - the vertex, or the facets+1 fillet points of the per-vertex theorems for its
+   ORIGINAL neighbours (although the code computes them from the already trimmed ones); a
+   replaced vertex has both neighbours and its tangent distance is below both edge lengths;
+   fillets sharing an edge do not overlap; a Smooth vertex that was kept does not fit into the
+   room left; the result is a fixed point *)
+Theorem C17_smooth_vertices_whole : forall closed (l0 : list (PV ROps)), smooth_input_ok closed l0 ->
+  exists dn : nat -> bool,
+    let tr := fun j => if dn j then cornerD l0 j else 0 in
+    smooth_vertices closed l0 =
+      flat_map (fun j => if dn j then map plain (fillet l0 j) else [vtx l0 j]) (seq 0 (length l0)) /\
+    (forall j, (j < length l0)%nat -> dn j = true ->
+       is_smooth (vtx l0 j) = true /\ has_prev closed j = true /\ has_next closed l0 j = true /\
+       cornerD l0 j < Lp l0 j /\ cornerD l0 j < Ln l0 j) /\
+    (forall j, (j < length l0)%nat -> has_next closed l0 j = true -> tr j + tr (nidx l0 j) <= Ln l0 j) /\
+    (forall j, (j < length l0)%nat -> dn j = false -> is_smooth (vtx l0 j) = true ->
+       has_prev closed j = true -> has_next closed l0 j = true ->
+       Lp l0 j - tr (pidx l0 j) < cornerD l0 j \/ Ln l0 j - tr (nidx l0 j) < cornerD l0 j) /\
+    (forall i, smooth_vertex closed (smooth_vertices closed l0) i = (smooth_vertices closed l0, false)).
+Proof. exact smooth_vertices_whole. Qed.
+Print Assumptions C17_smooth_vertices_whole.
+
+(* the index maps of the statement are prevVertex / nextVertex of the model *)
+Theorem C17_neighbours_by_index : forall closed (l0 : list (PV ROps)) j, (j < length l0)%nat ->
+  prev_vertex closed l0 j = (if has_prev closed j then Some (vtx l0 (pidx l0 j)) else None) /\
+  next_vertex closed l0 j = (if has_next closed l0 j then Some (vtx l0 (nidx l0 j)) else None).
+Proof. exact (fun closed l0 j H => conj (prev_vertex_idx closed l0 j H) (next_vertex_idx closed l0 j H)). Qed.
+Print Assumptions C17_neighbours_by_index.
+
+(* Polygon.Vertices(): relToAbs, createArcs, smoothVertices, reversal - as one statement *)
+Theorem C17_vertices_whole : forall closed reverse (l l1 : list (PV ROps)),
+  rel_to_abs closed l = Some l1 ->
+  let l2 := arcs_spec (wrap_prev closed l1) l1 in
+  smooth_input_ok closed l2 ->
+  exists dn : nat -> bool,
+    vertices (mkPolygon closed reverse l) =
+      Some (if reverse then rev (whole_blocks dn l2) else whole_blocks dn l2) /\
+    fillets_ok closed l2 dn.
+Proof. exact vertices_whole. Qed.
+Print Assumptions C17_vertices_whole.
+
+(* without Smooth marks: exactly the arc expansion *)
+Theorem C17_vertices_arcs_only : forall closed reverse (l l1 : list (PV ROps)),
+  rel_to_abs closed l = Some l1 -> nsmooth l1 = 0%nat ->
+  vertices (mkPolygon closed reverse l) =
+    Some (let vs := map (@pv_v ROps) (arcs_spec (wrap_prev closed l1) l1) in if reverse then rev vs else vs).
+Proof. exact vertices_arcs_only. Qed.
+Print Assumptions C17_vertices_arcs_only.
+
+(* ---- Bezier.Polygon() *)
+(* the endpoint/midpoint loop never runs out of fuel and equals the stateless function spans *)
+Theorem C17_split_splines_is_spans : forall (O : Ops) (l : list (BV O)),
+  split_splines l = spans l /\ forall k, split (2 * length l + 2 + k) l None [] = split_splines l.
+Proof. exact (fun O l => conj (@split_splines_spec O l) (@split_more_fuel O l)). Qed.
+Print Assumptions C17_split_splines_is_spans.
+
+(* after fixups() the control list starts and ends with an end point and has >= 2 vertices *)
+Theorem C17_bfixups_shape : forall (O : Ops) closed (l l' : list (BV O)), bfixups closed l = Some l' ->
+  exists e r, l' = e :: r /\ r <> [] /\ bv_mid e = false /\ bv_mid (last l' e) = false.
+Proof. exact @bfixups_shape. Qed.
+Print Assumptions C17_bfixups_shape.
+
+(* such a list is cut into spans of >= 2 control points that chain up (shared end points once)
+   to the control polygon itself; the "bad vertex type" error of the loop is unreachable *)
+Theorem C17_spans_cover : forall (O : Ops) (e : BV O) (r : list (BV O)) dv, r <> [] ->
+  bv_mid e = false -> bv_mid (last (e :: r) e) = false ->
+  exists ss, spans (e :: r) = Some ss /\ ss <> [] /\
+    join ss = map (@bv_v O) (e :: r) /\ Forall (fun s => (2 <= length s)%nat) ss /\
+    hd dv (hd [] ss) = bv_v e /\ last (last ss []) dv = bv_v (last (e :: r) e).
+Proof. exact @spans_cover. Qed.
+Print Assumptions C17_spans_cover.
+
+(* the outcome of Polygon() for every control list and every sequence of random draws *)
+Theorem C17_bezier_polygon_whole : forall closed (l : list (BV ROps)) rs,
+  (bfixups closed l = None /\ bezier_polygon closed l rs = Error) \/
+  (exists l' cps, bfixups closed l = Some l' /\ spans l' = Some cps /\ cps <> [] /\
+     join cps = map (@bv_v ROps) l' /\ Forall (fun c => (2 <= length c)%nat) cps /\
+     ((Exists (fun c => (5 < length c)%nat) cps /\ bezier_polygon closed l rs = Panic) \/
+      (exists ss, Forall2 (fun c s => new_spline c = Some s) cps ss /\
+                  bezier_polygon closed l rs = Verts (render_pts (curves ss) rs)))).
+Proof. exact bezier_polygon_whole. Qed.
+Print Assumptions C17_bezier_polygon_whole.
+
+(* the adaptive subdivision is bounded by its depth counter (Go: n > 8): 2..513 vertices a span *)
+Theorem C17_sample_bounded : forall (s : Spline ROps) rs, (2 <= length (fst (sample01 s rs)) <= 513)%nat.
+Proof. exact sample01_length. Qed.
+Print Assumptions C17_sample_bounded.
+
+(* when Set() zeroes nothing and no span is a point the polyline runs from the first control
+   point to the last control point of the fixed-up list (closed curve: the first vertex again) *)
+Theorem C17_bezier_polygon_endpoints : forall closed (l l' : list (BV ROps)) rs cps ss e r,
+  bfixups closed l = Some l' -> l' = e :: r -> spans l' = Some cps ->
+  Forall2 (fun c s => new_spline c = Some s) cps ss ->
+  Forall exact_span cps -> curves ss = ss ->
+  exists mid, bezier_polygon closed l rs = Verts (bv_v e :: mid ++ [bv_v (last l' e)]) /\
+              (length mid + 2 <= 512 * length cps + 1)%nat.
+Proof. exact bezier_polygon_endpoints. Qed.
+Print Assumptions C17_bezier_polygon_endpoints.
+
+(* ---------------------------------------------------------------- tie by translation *)
+(* Generated/ProfSkel.v is rewritten from the CURRENT sdf/poly.go and sdf/bezier.go on every run
+   (harness/profgen); an edit of one of these control skeletons breaks the obligation below. *)
+Theorem C17_SKEL_neighbours : forall (O : Ops) closed (l : list (PV O)) i,
+  gen_nextVertex closed l i = next_vertex closed l i /\ gen_prevVertex closed l i = prev_vertex closed l i.
+Proof. exact (fun O closed l i => conj (@SKEL_nextVertex O closed l i) (@SKEL_prevVertex O closed l i)). Qed.
+Print Assumptions C17_SKEL_neighbours.
+
+Theorem C17_SKEL_createArcs : forall (O : Ops) closed (l : list (PV O)),
+  gen_createArcs (arc_vertex closed) l = create_arcs closed l /\
+  @gen_createArcs_calls = want_createArcs_calls (* ["arcVertex"] *).
+Proof. exact @SKEL_createArcs. Qed.
+Print Assumptions C17_SKEL_createArcs.
+
+Theorem C17_SKEL_smoothVertices : forall (O : Ops) closed (l : list (PV O)),
+  gen_smoothVertices (smooth_vertex closed) l = smooth_vertices closed l /\
+  @gen_smoothVertices_calls = want_smoothVertices_calls (* ["smoothVertex"] *).
+Proof. exact @SKEL_smoothVertices. Qed.
+Print Assumptions C17_SKEL_smoothVertices.
+
+Theorem C17_SKEL_fixups : forall (O : Ops) (p : Polygon O),
+  gen_fixups (rel_to_abs (pg_closed p)) (create_arcs (pg_closed p)) (smooth_vertices (pg_closed p)) (pg_vlist p)
+    = fixups p /\
+  @gen_fixups_calls = want_fixups_calls (* ["relToAbs"; "createArcs"; "smoothVertices"] *).
+Proof. exact @SKEL_fixups. Qed.
+Print Assumptions C17_SKEL_fixups.
+
+(* the endpoint/midpoint loop of Bezier.Polygon, translated statement by statement into a step
+   function and iterated: never out of fuel, error exactly when the model reports one, and the
+   `splines` it leaves are the model's control-point lists *)
+Theorem C17_SKEL_polygon_loop : forall (O : Ops) (l : list (BV O)),
+  gen_polygon_n l = length l /\
+  run_splines l (2 * length l + 3) gen_polygon_init = Some (split_splines l).
+Proof. exact @SKEL_polygon_loop. Qed.
+Print Assumptions C17_SKEL_polygon_loop.
+
 (* ---------------------------------------------------------------- non-vacuity *)
 Example C17_corner_hyp_satisfiable : corner_ok (mkV2 1 0) (mkV2 0 0) (mkV2 0 1).
 Proof.
@@ -259,3 +437,16 @@ Proof.
   repeat match goal with H : _ / ?y < _ |- _ =>
     apply (Rmult_lt_compat_r y) in H; [unfold Rdiv in H; rewrite Rmult_assoc, Rinv_l, Rmult_1_r in H by lra|lra] end; lra.
 Qed.
+(* the class of the whole-polygon theorem is inhabited by a polygon with adjacent fillets on
+   every edge, and the theorem decides it completely: all four corners are replaced *)
+Example C17_whole_hyp_satisfiable : smooth_input_ok true square.
+Proof. exact square_input_ok. Qed.
+Example C17_whole_square_result :
+  smooth_vertices true square = flat_map (fun j => map plain (fillet square j)) (seq 0 4).
+Proof. exact square_all_filleted. Qed.
+(* the hypotheses of C17_bezier_polygon_endpoints hold for an open straight span (1,1) -> (3,3) *)
+Example C17_bezier_whole_hyp_satisfiable :
+  exists cps ss e r,
+    bfixups false ex_curve = Some (e :: r) /\ spans (e :: r) = Some cps /\
+    Forall2 (fun c s => new_spline c = Some s) cps ss /\ Forall exact_span cps /\ curves ss = ss.
+Proof. exact endpoints_hyp_satisfiable. Qed.
